@@ -49,6 +49,25 @@ def real_directive(s):
     return ("ok", (str(t.data), leader[0] if leader else None, szs[0][0] if szs else None, szs[0][1] if szs else None))
 
 
+def real_directive_via_mapping(prev, s):
+    """the same question asked through the public entry point: a mapping that spells the VALID directive `prev` for
+    one rank and `s` for another rank of the same tensor (so that nothing on the way to the parser - caches, keys -
+    can confuse the two spellings)"""
+    from teaal.parse import Mapping
+    y = 'mapping:\n  partitioning:\n    Z:\n      K:\n      - "%s"\n      M:\n      - "%s"\n' % (prev, s)
+    try:
+        m = Mapping.from_str(y)
+        part = m.get_partitioning()["Z"]
+        t = [v for k, v in part.items() if "M" in [str(x) for x in k.scan_values(lambda _: True)]][0][0]
+    except Exception:      # noqa
+        return REJECT
+    leader = [str(c.children[0]) for c in t.find_data("leader")]
+    szs = [(c.data, str(c.children[0])) for c in list(t.find_data("int_sz")) + list(t.find_data("str_sz"))]
+    if len(leader) > 1 or len(szs) > 1:
+        return ("ok", ("malformed tree", str(t)))
+    return ("ok", (str(t.data), leader[0] if leader else None, szs[0][0] if szs else None, szs[0][1] if szs else None))
+
+
 def read_ranks(s):
     m = _full("(" + NAME + ")", s)
     if m:
